@@ -35,6 +35,9 @@ pub struct Case {
     pub cli_args: Vec<String>,
     /// explicit -t list (empty = all targets, no checkpoint)
     pub cli_targets: Vec<String>,
+    /// add --deps (the named targets then pull in what they use)
+    #[serde(default)]
+    pub deps: bool,
 }
 
 const ARG_POOL: [&str; 16] = [
@@ -106,6 +109,13 @@ pub fn strategy() -> impl Strategy<Value = Case> {
                     }
                     defs.push((p.to_string(), c.clone(), d));
                 }
+                // dependencies between the targets (earlier ones only, so no cycle)
+                if i > 0 && (kind + ext) % 2 == 0 {
+                    let j = (kind as usize + i) % i;
+                    if !layout[i].starts_with(&format!("{}/", layout[j])) && !layout[j].starts_with(&format!("{}/", layout[i])) {
+                        t.uses.push(layout[j].to_string());
+                    }
+                }
                 targets.push(t);
             }
             let config = ConfigSpec {
@@ -153,12 +163,17 @@ pub fn strategy() -> impl Strategy<Value = Case> {
                 }
             }
             let cli_argmaps: Vec<String> = rcli_maps.iter().map(|&k| ["m1", "m2", "m 3", "nofile"][k as usize].to_string()).collect();
+            let mut deps = false;
             let (cli_args, cli_targets) = if want_args && ncmd == 1 {
                 (cli_args_raw, vec![config.targets[pick(tsel, n)].path.clone()])
             } else {
                 let ts = match tmode {
                     0 => vec![],
-                    1 => vec![config.targets[pick(tsel, n)].path.clone()],
+                    1 => {
+                        // one named target; half of the time its dependencies come along
+                        deps = tsel % 2 == 0;
+                        vec![config.targets[pick(tsel, n)].path.clone()]
+                    }
                     _ => config.target_paths(),
                 };
                 (vec![], ts)
@@ -173,6 +188,7 @@ pub fn strategy() -> impl Strategy<Value = Case> {
                 no_base,
                 cli_args,
                 cli_targets,
+                deps,
             }
         })
 }
@@ -274,6 +290,9 @@ pub fn check(case: &Case, w: usize) -> CheckResult {
     if !case.cli_targets.is_empty() {
         args.push("-t".into());
         args.extend(case.cli_targets.iter().cloned());
+        if case.deps {
+            args.push("--deps".into());
+        }
     }
     if !case.cli_argmaps.is_empty() {
         args.push("--argmaps".into());
@@ -300,6 +319,11 @@ pub fn check(case: &Case, w: usize) -> CheckResult {
     }
     let selected: Vec<String> = if case.cli_targets.is_empty() {
         cfg.target_paths()
+    } else if case.deps {
+        let idx = crate::gen::index_of(cfg);
+        let adj = crate::model::dep_adj(cfg);
+        let roots: Vec<usize> = case.cli_targets.iter().map(|t| idx[t]).collect();
+        crate::model::closure(&adj, &roots).into_iter().map(|i| cfg.targets[i].path.clone()).collect()
     } else {
         case.cli_targets.clone()
     };
@@ -362,6 +386,7 @@ pub fn check(case: &Case, w: usize) -> CheckResult {
         .class_if(multi_source, "multi-source-args")
         .class_if(custom, "custom-dir-or-definition")
         .class_if(!case.cli_args.is_empty(), "cli-args")
+        .class_if(case.deps && selected.len() > case.cli_targets.len(), "deps-pulled-in")
         .class_if(case.no_base, "no-base")
         .class_if(!case.cli_argmaps.is_empty(), "cli-argmaps")
         .class_if(!case.decoys.is_empty(), "decoys")
